@@ -893,6 +893,8 @@ LAYOUTS = {
     "default-dict": "@icontract.require(lambda x, y, known={'ok': 200, 'gone': 410}: {E})\ndef {F}(x, y):\n    return 1\n",
     "default-slice": "@icontract.require(lambda x, y, part=[1, 2, 3][0:2]: {E})\ndef {F}(x, y):\n    return 1\n",
     "default-lambda": "@icontract.require(lambda x, y, fn=lambda z: z: {E})\ndef {F}(x, y):\n    return 1\n",
+    # a description with braces is text, not a format string
+    "description-braces": "@icontract.require(lambda x, y: {E}, 'one of {1, 2} or {} - see {x}')\ndef {F}(x, y):\n    return 1\n",
     "blank-lines-and-tabs": "@icontract.require(\n\n\tlambda x, y: {E}\n\n)\ndef {F}(x, y):\n    return 1\n",
 }
 
@@ -990,6 +992,13 @@ def check_layouts(res: CheckResult, prop_clauses: Dict[str, set], cases: List[di
                     _viol(res, prop_clauses, "msg.header", "layout {}: no location line: {!r}".format(layout, msg[:200]), c)
                     continue
                 body = "\n".join(lines[1:])
+                if layout == "description-braces":
+                    dtext = "one of {1, 2} or {} - see {x}: "
+                    if not body.startswith(dtext):
+                        _viol(res, prop_clauses, "msg.header", "layout {}: the description is not carried verbatim: {!r}".format(
+                            layout, body[:200]), c)
+                        continue
+                    body = body[len(dtext):]
                 if layout in ("description-positional", "description-first", "error-first", "ensure-multiline",
                               "continuation-identifiers", "continuation-identifiers-2"):
                     if not body.startswith("a description: "):
